@@ -255,6 +255,42 @@ func init() {
 				}
 			}
 		}
+		// goTypeRegistry: which functions of package object touch it, and NewGoType's statements
+		// (the lookup and the description of a type happen under goTypeMutex)
+		var registryUsers, newGoTypeStmts []string
+		objFiles, _ := filepath.Glob(filepath.Join(repo, "object", "*.go"))
+		sort.Strings(objFiles)
+		for _, of := range objFiles {
+			if strings.HasSuffix(of, "_test.go") {
+				continue
+			}
+			gf, err := parser.ParseFile(fset, of, nil, 0)
+			if err != nil {
+				panic(err)
+			}
+			for _, d := range gf.Decls {
+				fd, ok := d.(*ast.FuncDecl)
+				if !ok || fd.Body == nil {
+					continue
+				}
+				uses := false
+				ast.Inspect(fd.Body, func(n ast.Node) bool {
+					if id, ok := n.(*ast.Ident); ok && id.Name == "goTypeRegistry" {
+						uses = true
+					}
+					return true
+				})
+				if uses {
+					registryUsers = append(registryUsers, fd.Name.Name)
+				}
+				if fd.Name.Name == "NewGoType" && fd.Recv == nil {
+					for _, st := range fd.Body.List {
+						newGoTypeStmts = append(newGoTypeStmts, c08Src(fset, st))
+					}
+				}
+			}
+		}
+		sort.Strings(registryUsers)
 		// vm/run.go: the first call in Run (what creates the machine)
 		runCreates := "-"
 		rf, err := parser.ParseFile(fset, filepath.Join(repo, "vm/run.go"), nil, 0)
@@ -333,6 +369,10 @@ func init() {
 		s += "def structMapAlloc : String := " + fmt.Sprintf("%q", structMapAlloc) + "\n\n"
 		s += "/-- vm/run.go `Run`: the function its first call goes to (what creates the machine) -/\n"
 		s += "def runCreatesWith : String := " + fmt.Sprintf("%q", runCreates) + "\n\n"
+		s += "/-- the functions of package object (tests excluded) that mention `goTypeRegistry` -/\n"
+		s += "def registryUsers : List String := " + c08_leanStrs(registryUsers) + "\n\n"
+		s += "/-- the statements of `NewGoType`, in source order -/\n"
+		s += "def newGoTypeStmts : List String := " + c08_leanStrs(newGoTypeStmts) + "\n\n"
 		s += "end Risor.Generated.C08\n"
 		return s
 	}})
